@@ -161,6 +161,7 @@ MUTATORS = {
         ("bp constructor aliases tn", r"quimb/tensor/belief_propagation/bp_common\.py$", r"^(\s+)self\.tn = tn if inplace else tn\.copy\(\)\s*$", r"\1self.tn = tn"),
     ],
     "C15": [
+        ("dims of the twice-permuted layout", r"quimb/core\.py$", r"^(\s+)return permute\(b, dims_cur, ip\)\s*$", r"\1return permute(b, dims[ip], ip)", r"^pkron$"),
         ("parallel reduction pairs in reverse", r"quimb/core\.py$", r"^(\s+)paired_x = partition_all\(2, x\)\s*$", r"\1paired_x = tuple(partition_all(2, x))[::-1]"),
         ("reduction folds pairs backwards", r"quimb/core\.py$", r"^(\s+)return fn\(\*x\)\s*$", r"\1return fn(*x[::-1])"),
         ("ownership dropped from keyword dict", r"quimb/gen/operators\.py$", r"^(\s+)\"ownership\": ownership,\s*$", None),
